@@ -80,7 +80,8 @@ def jobs():
                           bounds={"tkl": "0..65804", "body": "%d..%d" % (lo, hi), "proto": pn}))
     for tkl in [0, 1, 8, 12, 13, 14, 268, 269, 270, 65804]:
         js.append(Job("L2t-add-token@%d" % tkl, "C01/c01.c", "c01_l2t_add_token", UNITS, extra_src=EXTRA, unit_defines=UD,
-                      defines=["TKL=%d" % tkl], unwind=3, tier="quick" if tkl <= 270 else "thorough", group="L2t-add-token",
+                      defines=["TKL=%d" % tkl], unwind=3, unwindset={"coap_pdu_check_resize.0": 12},
+                      tier="quick" if tkl <= 270 else "thorough", group="L2t-add-token",
                       desc="coap_add_token with a %d-byte symbolic token" % tkl, bounds={"tkl": tkl}))
     # B1 round trips
     def b1(shape, proto, tkl, pl, tier, extra=()):
